@@ -148,6 +148,16 @@ theorem C04_frame_aliases (db : Db) (fuel : Nat) (fwd : Bool) (r : Request) (e :
   rw [this, hfree.1.1]
   simp [hfree.1.2]
 
+/-- `setup --type t…` (`Db.withTypes`: the tables read under the setup types of the command line): the frame clause with
+reachability taken in the database as declared — whatever the `if (type == t)` blocks select, a product that no
+dependency line of any block leads to is untouched.  (Every theorem of this file holds of `db.withTypes types` as it
+stands, being for every database; this one relates its hypothesis to the declared tables.) -/
+theorem C04_frame_types (db : Db) (types : List Str) (fuel : Nat) (fwd : Bool) (r : Request) (e : Setup.Env) (s' : St)
+    (m : Name) (hm : ∀ k, ¬ Within db r.name k m)
+    (h : (if fwd then runSetup (db.withTypes types) fuel r e else runUnsetup (db.withTypes types) fuel r e) = .ok s') :
+    SameFor m e s'.env :=
+  C04_frame (db.withTypes types) fuel fwd r e s' m (fun k hw => hm k (within_withTypes db types r.name k m hw)) h
+
 /-! ## keep -/
 
 /-- all `SETUP_*` records of the environment name declared versions -/
